@@ -45,32 +45,33 @@ type Augment struct {
 }
 
 type Node struct {
-	Kind       string    `json:"kind"` // container leaf leaf-list list choice case uses
-	Name       string    `json:"name"` // for uses: the grouping reference
-	Desc       string    `json:"desc,omitempty"`
-	Ref        string    `json:"ref,omitempty"`
-	Units      string    `json:"units,omitempty"`
-	Presence   string    `json:"presence,omitempty"`
-	Config     string    `json:"config,omitempty"`
-	Status     string    `json:"status,omitempty"`
-	IfFeatures []string  `json:"if_features,omitempty"`
-	When       string    `json:"when,omitempty"`
-	Musts      []Must    `json:"musts,omitempty"`
-	Mandatory  string    `json:"mandatory,omitempty"`
-	Default    *string   `json:"default,omitempty"`
-	Type       *TypeSpec `json:"type,omitempty"`
-	Key        string    `json:"key,omitempty"`
-	Uniques    []string  `json:"uniques,omitempty"`
-	Min        string    `json:"min,omitempty"`
-	Max        string    `json:"max,omitempty"`
-	OrdBy      string    `json:"ordby,omitempty"`
-	Kids       []*Node   `json:"kids,omitempty"`
-	Refines    []Refine  `json:"refines,omitempty"`
-	Augments   []*Augment `json:"augments,omitempty"`
-	Typedefs   []*Typedef `json:"typedefs,omitempty"`
+	Kind       string      `json:"kind"` // container leaf leaf-list list choice case uses
+	Name       string      `json:"name"` // for uses: the grouping reference
+	Desc       string      `json:"desc,omitempty"`
+	Ref        string      `json:"ref,omitempty"`
+	Units      string      `json:"units,omitempty"`
+	Presence   string      `json:"presence,omitempty"`
+	Config     string      `json:"config,omitempty"`
+	Status     string      `json:"status,omitempty"`
+	IfFeatures []string    `json:"if_features,omitempty"`
+	When       string      `json:"when,omitempty"`
+	Musts      []Must      `json:"musts,omitempty"`
+	Mandatory  string      `json:"mandatory,omitempty"`
+	Default    *string     `json:"default,omitempty"`
+	Type       *TypeSpec   `json:"type,omitempty"`
+	Key        string      `json:"key,omitempty"`
+	Uniques    []string    `json:"uniques,omitempty"`
+	Min        string      `json:"min,omitempty"`
+	Max        string      `json:"max,omitempty"`
+	OrdBy      string      `json:"ordby,omitempty"`
+	Kids       []*Node     `json:"kids,omitempty"`
+	Refines    []Refine    `json:"refines,omitempty"`
+	Augments   []*Augment  `json:"augments,omitempty"`
+	Typedefs   []*Typedef  `json:"typedefs,omitempty"`
 	Groupings  []*Grouping `json:"groupings,omitempty"`
-	Raw        []string  `json:"raw,omitempty"` // extra raw statements
-	DefMod     string    `json:"defmod,omitempty"` // set by Inline: module in whose scope the type / feature references resolve
+	Raw        []string    `json:"raw,omitempty"`    // extra raw statements
+	DefMod     string      `json:"defmod,omitempty"` // set by Inline: module in whose scope the type / feature references resolve
+	NsMod      string      `json:"nsmod,omitempty"`  // set by Inline on nodes a module-level augment introduces: the augmenting module, to which they belong
 }
 
 type Typedef struct {
@@ -153,6 +154,9 @@ type Mod struct {
 type w struct {
 	b strings.Builder
 }
+
+// Quote renders a string as a double-quoted YANG argument.
+func Quote(s string) string { return q(s) }
 
 func q(s string) string {
 	s = strings.ReplaceAll(s, `\`, `\\`)
